@@ -21,6 +21,7 @@ import (
 	"time"
 
 	"compiler/internal/compiler"
+	"compiler/internal/verifhook"
 )
 
 type job struct {
@@ -30,6 +31,7 @@ type job struct {
 	Skip    bool   `json:"skip"`
 	Out     string `json:"out"`
 	Keep    bool   `json:"keep"`
+	Trace   string `json:"trace"`
 }
 
 type result struct {
@@ -68,6 +70,8 @@ func runJob(j job, realOut *os.File) (res result) {
 		bo, _ := io.ReadAll(tmpO)
 		res.Stderr, res.Stdout = string(be), string(bo)
 	}()
+	verifhook.SetTrace(j.Trace)
+	defer verifhook.SetTrace("")
 	backend := j.Backend
 	if backend == "" {
 		backend = "qbe"
